@@ -5,14 +5,20 @@
 #include <unistd.h>
 using namespace opensmt;
 
+// initial size of interpPipe's line buffer: 16, or the value of the verification hook (OPENSMT_VERIF_HOOKS)
+#ifdef OPENSMT_VERIF_PIPE_BUFFER_SIZE
+#define LINE0 OPENSMT_VERIF_PIPE_BUFFER_SIZE
+#else
+#define LINE0 16
+#endif
 #ifndef NBYTES
 #define NBYTES 6
 #endif
 #define MAXF (NBYTES / 2)          // a frame has at least the two bytes "()"
 #ifdef GROW
-#define LINECAP 32                 // the line buffer is doubled once (16 -> 32)
+#define LINECAP (2 * LINE0)          // the line buffer is doubled once
 #else
-#define LINECAP 16
+#define LINECAP LINE0
 #endif
 
 // ---------------------------------------------------------------- symbolic environment
@@ -52,8 +58,8 @@ static Ref R;
 
 // allocation model: interpPipe's line buffer is 16 bytes, doubled by realloc; the frame buffer is malloc(i+2).
 // Fixed objects of exactly the requested sizes, so that CBMC's bounds checks are the buffer-overflow checks.
-static char buf16[16];
-static char buf32[32];
+static char buf16[LINE0];
+static char buf32[2 * LINE0];
 static char out_buf[NBYTES + 2];
 static bool line_given;
 static unsigned out_cap;
@@ -62,7 +68,7 @@ static bool out_live;
 extern "C" void * stub_malloc(size_t n) {
     if (!line_given) {
         line_given = true;
-        VASSERT(n == 16, "bound: initial line buffer is 16 bytes");
+        VASSERT(n == LINE0, "bound: initial line buffer has the configured size");
         return buf16;
     }
     VASSERT(!out_live, "frame buffer of the previous frame was freed");
@@ -76,8 +82,8 @@ extern "C" void * stub_realloc(void * p, size_t n) {
     VASSERT(false, "bound: the line buffer is never grown for inputs shorter than 15 bytes");
     return p;
 #else
-    VASSERT(p == (void *)buf16 && n == 32, "bound: exactly one doubling 16 -> 32 of the line buffer");
-    for (int j = 0; j < 16; j++) buf32[j] = buf16[j];
+    VASSERT(p == (void *)buf16 && n == 2 * LINE0, "bound: exactly one doubling of the line buffer");
+    for (int j = 0; j < LINE0; j++) buf32[j] = buf16[j];
     return buf32;
 #endif
 }
